@@ -153,10 +153,12 @@ def run_roundtrip(plan, out, C, log):
     feats = plan["features"]
     if name and name != info["family"]:
         C["probe.instance_name_differs_from_kind"] += 1
-    if any(ord(c) > 127 for f in feats for c in f):
+    if any(ord(c) > 127 for f in feats for c in str(f)):
         C["probe.unicode_features"] += 1
     if feats[0] in ("1", "0.5"):
         C["probe.numeric_looking_features"] += 1
+    if any(not isinstance(f, str) or f != f.strip() for f in feats):
+        C["probe.feature_names_not_clean_strings"] += 1
     scratch = os.environ.get("LEASIM_SCRATCH") or tempfile.gettempdir()
     d = tempfile.mkdtemp(prefix="c12-", dir=scratch)
     try:
